@@ -421,8 +421,11 @@ fn maybe_create_scmp_reply(
         .context("can't classify SCION packet for SCMP response")?;
 
     match classify {
-        ClassifiedPacketView::Scmp(scmp_view) if scmp_view.scmp().message().is_error() => {
-            // Don't reply to SCMP Error Messages
+        ClassifiedPacketView::Scmp(scmp_view)
+            if scmp_view.scmp().message().is_error()
+                || u8::from(scmp_view.scmp().message_type()) < 128 =>
+        {
+            // Don't reply to SCMP Error Messages (every type below 128, known or not)
             return Ok(None);
         }
         _ => {}
